@@ -372,9 +372,14 @@ def step_line(chain, prop, kind, tap):
         toks.append('w=' + csv(numpy.linalg.eigh(prop._cov)[0]))
         toks.append('el=' + frac(numpy.exp(prop._log_lambda)))
     if kind == 'vmf':
-        ek = numpy.exp(prop._log_kappa)
+        ek = float(numpy.exp(prop._log_kappa))
+        nm = float(IsotropicSolidAngle._normalisation(ek))
+        if not math.isfinite(ek):
+            ek, nm = 0.0, 0.0          # exp overflowed: the real setters raise; so does the model on ek = 0
+        elif math.isnan(nm):
+            nm = -1.0                  # a NaN normalisation fails the setter's `>= 0` test like a negative one
         toks.append('ek=' + frac(ek))
-        toks.append('nm=' + frac(IsotropicSolidAngle._normalisation(ek)))
+        toks.append('nm=' + frac(nm))
     tap.calls = []
     return ' '.join(toks)
 
@@ -745,8 +750,16 @@ def _admissible(prop, kind):
             bad.append('covariance not positive semidefinite (min eigenvalue %g)' % w.min())
         if any(v < 0 for v in st['eig']):
             bad.append('negative eigenvalue scale')
-    if kind == 'vmf' and not (st['kappa'][0] > 0 and st['norm'][0] > 0):
-        bad.append('non-positive concentration / normalisation')
+    if kind == 'vmf':
+        # the normalisation is an internal derived quantity that legitimately underflows to 0.0
+        # for kappa > 707.94 (the density uses the log-space form): only a negative one is wrong
+        if not st['kappa'][0] > 0:
+            bad.append('non-positive concentration')
+        if st['norm'][0] < 0:
+            bad.append('negative normalisation')
+        lognorm = getattr(prop, '_lognormalisation', None)
+        if lognorm is not None and not math.isfinite(float(lognorm(prop.kappa))):
+            bad.append('log-normalisation not finite at kappa=%r' % float(prop.kappa))
     return bad
 
 
